@@ -98,6 +98,12 @@ func TestC09(t *testing.T) {
 	}
 	// directed scenarios: hostile evidence of every shape for every kind of request
 	c09EvidenceScenarios(t, r)
+	// ... and well-formed evidence whose receipt has a hostile log list (valid relayed transaction)
+	for _, hist := range c07HostileReceipts(t, r) {
+		r.Hit("block_never_aborts", "the attestation loop of the consensus end-blocker panicked on a relayed user-contract upload whose receipt has an unusual log list", map[string]interface{}{"ops": hist, "seed": r.Seed})
+		r.Op("block 0 4", "aborted")
+	}
+	r.Stat("scenario.hostile_receipts")
 	for c := 0; c < r.N; c++ {
 		seed := r.Rng.Int63()
 		rng := rand.New(rand.NewSource(seed))
